@@ -34,6 +34,8 @@ pub struct HookState {
     pub claims: std::collections::HashMap<(usize, usize, usize), usize>,
     /// real-mode results that contradict an earlier look-ahead success at the same position by the same rule
     pub contradicted: Vec<ProbeRecord>,
+    /// rules that reported failure (in either mode) but left the position moved: `at` -> `real`
+    pub failed_moved: Vec<ProbeRecord>,
 }
 
 thread_local! {
@@ -100,6 +102,16 @@ pub fn real_result(src: usize, pos: usize, rule_idx: usize, extent: Option<usize
             if extent != Some(len) && s.contradicted.len() < 64 {
                 s.contradicted.push(ProbeRecord { inline: true, rule_idx, at: pos, silent: Some(len), real: extent, silent_kept_tree: true, silent_kept_pos: true });
             }
+        }
+    });
+}
+
+/// a rule returned "no match" and left `state.line` / `state.pos` at `now` instead of `at`
+pub fn failed_moved(inline: bool, rule_idx: usize, at: usize, now: usize) {
+    STATE.with(|s| {
+        let mut s = s.borrow_mut();
+        if s.failed_moved.len() < 64 {
+            s.failed_moved.push(ProbeRecord { inline, rule_idx, at, silent: None, real: Some(now), silent_kept_tree: true, silent_kept_pos: false });
         }
     });
 }
